@@ -32,7 +32,7 @@ ASSUMPTIONS = [
     "read(0) has only a weak oracle (no data, no b'', cursor unchanged): the statement does not define it",
     "sub-sample instants resolve to either neighbouring sample, applied before 'negative counts from the end'",
     "streams fed to file/stdin sources are whole samples (mid-sample ends are outside the statement)",
-    "re-opening a raw/wav FILE source starts a new pass over the file (what opening a file means; the statement spells the restart out only for the buffer source); the stdin source is closed once, then read to observe the I/O error",
+    "re-opening a raw/wav FILE source starts a new pass over the file (what opening a file means; the statement spells the restart out only for the buffer source); standard input is a stream: closing and re-opening the source, or creating a second source object on it, resumes where reading stopped (anything else would hand out overlapping chunks)",
     "held means: held on the executions listed in coverage",
 ]
 IOERR = (AudioIOError, OSError)
@@ -99,6 +99,39 @@ def make_source(kind, data, fmt, tmpdir, rng):
             src = StdinAudioSource(rate, width, channels)
         finally:
             sys.stdin = old
+        make_source.last_stdin = ps
+        return src, ps.close
+    if kind == "stdin_file":
+        # `prog < audio.raw`: standard input is a regular (seekable) file
+        path = os.path.join(tmpdir, "stdin.raw")
+        with open(path, "wb") as fp:
+            fp.write(data)
+
+        class _FileStdin:
+            def __init__(self, p):
+                self.buffer = open(p, "rb")
+
+            def fileno(self):
+                return self.buffer.fileno()
+
+        fs = _FileStdin(path)
+        old = sys.stdin
+        sys.stdin = fs
+        try:
+            src = StdinAudioSource(rate, width, channels)
+        finally:
+            sys.stdin = old
+        make_source.last_stdin = fs
+        return src, fs.buffer.close
+    if kind == "stdin_big_chunks":
+        old = sys.stdin
+        ps = PipeStdin(data, rng, max_chunk=8192, lockstep=False)
+        sys.stdin = ps
+        try:
+            src = StdinAudioSource(rate, width, channels)
+        finally:
+            sys.stdin = old
+        make_source.last_stdin = ps
         return src, ps.close
     raise ValueError(kind)
 
@@ -109,7 +142,9 @@ def applicable(kind, op):
         return True
     if name in ("pos", "pos_s", "pos_ms", "rewind", "getpos"):
         return False
-    if kind == "stdin" and name == "read" and (op[1] is None or op[1] < 0):
+    if kind.startswith("stdin") and name == "read" and (op[1] is None or op[1] < 0):
+        return False
+    if name == "second_source" and not kind.startswith("stdin"):
         return False
     return True
 
@@ -122,6 +157,7 @@ def run_history(ctx, kind, data, fmt, ops, tmpdir, rng):
     if len(data) > 4096:
         case["data_is"] = "random.Random(data_seed).randbytes(nbytes); see long_buffer_histories"
     src, cleanup = make_source(kind, data, fmt, tmpdir, rng)
+    stdin_obj = [getattr(make_source, "last_stdin", None)]
     m = Model(n, rate)
     nonempty = 0
     closed_for_good = False
@@ -136,16 +172,28 @@ def run_history(ctx, kind, data, fmt, ops, tmpdir, rng):
             w = {"case": case, "op_index": i, "op": list(op), "model_pos": m.pos}
             ctx.count("ops_" + name)
             if name == "open":
-                if closed_for_good:
-                    continue
                 src.open()
                 m.open = True
             elif name == "close":
                 src.close()
                 m.open = False
-                m.pos = 0  # buffer: stated; raw/wav file: re-opening a file starts a new pass over it
-                if kind == "stdin":
-                    closed_for_good = True  # a pipe cannot be read twice
+                if kind.startswith("stdin"):
+                    pass  # standard input is a stream: what was handed out is gone, reading resumes where it stopped
+                else:
+                    m.pos = 0  # buffer: stated; raw/wav file: re-opening a file starts a new pass over it
+            elif name == "second_source":
+                if kind.startswith("stdin"):
+                    # another source object on the same process-wide standard input carries on where the first stopped
+                    old_stdin = sys.stdin
+                    sys.stdin = stdin_obj[0]
+                    try:
+                        src2 = StdinAudioSource(rate, width, channels)
+                    finally:
+                        sys.stdin = old_stdin
+                    if m.open:
+                        src2.open()
+                    src = src2
+                    ctx.count("second_source_objects_on_one_stdin")
             elif name == "read":
                 exp = m.read(op[1])
                 try:
@@ -283,8 +331,10 @@ def random_ops(rng, n, rate):
             ops.append(("pos_ms", rng.choice((0, 1, -1, rng.randint(-1000 * (n + 1) // rate - 2, 1000 * (n + 1) // rate + 2)))))
         elif r < 0.88:
             ops.append(("rewind",))
-        elif r < 0.94:
+        elif r < 0.93:
             ops.append(("close",))
+        elif r < 0.96:
+            ops.append(("second_source",))
         else:
             ops.append(("open",))
     ops.append(("getpos",))
@@ -340,10 +390,27 @@ def long_buffer_histories(ctx, conf, tmpdir):
         ctx.count("long_buffer_histories")
 
 
+def large_stdin_reads(ctx, tmpdir):
+    """single reads of more than 64 KiB from standard input (pipe and regular file)."""
+    rng = ctx.rng("bigreads")
+    width, channels, rate = rng.choice(((2, 1), (1, 3), (4, 2))), None, 16000
+    width, channels = width
+    bps = width * channels
+    n = 300000 // bps
+    data = rng.randbytes(n * bps)
+    for kind in ("stdin_big_chunks", "stdin_file"):
+        sizes = [70000 // bps + 3, 5, 100000 // bps, 66000 // bps, n]
+        ops = [("open",)] + [("read", k) for k in sizes] + [("read", 10)]
+        run_history(ctx, kind, data, (rate, width, channels), ops, tmpdir, rng)
+        ctx.count("large_stdin_read_histories")
+
+
 def run_shard(ctx):
     conf = TIERS[ctx.tier]
     tmpdir = tempfile.mkdtemp(prefix="vf-c11-")
     try:
+        if ctx.shard in (4, 5):
+            large_stdin_reads(ctx, tmpdir)
         long_buffer_histories(ctx, conf, tmpdir)
         exhaustive(ctx, conf, tmpdir)
         rng = ctx.rng("random")
@@ -355,7 +422,7 @@ def run_shard(ctx):
             data = rng.randbytes(n * width * channels)
             ops = random_ops(rng, n, rate)
             # the same history on every kind, in lock-step on the same audio
-            for kind in ("buffer", "raw", "wav", "stdin"):
+            for kind in ("buffer", "raw", "wav", "stdin", "stdin_file"):
                 run_history(ctx, kind, data, (rate, width, channels), ops, tmpdir, rng)
             if (i & 15) == 0 and ctx.out_of_time():
                 break
@@ -377,6 +444,6 @@ def replay(ctx, case):
 def inconclusive(merged, tier):
     c = merged["counters"]
     need = ["chunks_checked", "reads_at_end", "io_errors_when_not_open", "position_reads", "position_sets", "position_index_errors",
-            "negative_position_sets", "histories_buffer", "histories_raw", "histories_wav", "histories_stdin", "exhaustive_histories",
+            "negative_position_sets", "histories_buffer", "histories_raw", "histories_wav", "histories_stdin", "histories_stdin_file", "large_stdin_read_histories", "second_source_objects_on_one_stdin", "exhaustive_histories",
             "ops_pos_s", "ops_pos_ms", "ops_rewind", "ops_close", "long_buffer_histories"]
     return [f"monitor never observed {k}" for k in need if c.get(k, 0) == 0]
